@@ -89,7 +89,7 @@ func litOf(t *rapid.T, k lang.Kind, label string) lang.Expr {
 // Leaf draws a literal or a bound name of kind k.
 func (e *ExprEnv) Leaf(t *rapid.T, k lang.Kind) lang.Expr {
 	ns := e.namesOf(k)
-	if len(ns) > 0 && rapid.IntRange(0, 2).Draw(t, "leafname") > 0 {
+	if len(ns) > 0 && Uniform(t, "leafname", 3) > 0 {
 		return lang.Name{N: rapid.SampledFrom(ns).Draw(t, "name").Name}
 	}
 	switch k {
@@ -118,7 +118,7 @@ func (e *ExprEnv) Expr(t *rapid.T, k lang.Kind, depth int) lang.Expr {
 	if depth <= 0 {
 		return e.Leaf(t, k)
 	}
-	c := rapid.IntRange(0, 99).Draw(t, "prod")
+	c := Uniform(t, "prod", 100)
 	if c < 12 {
 		return e.Leaf(t, k)
 	}
@@ -134,14 +134,14 @@ func (e *ExprEnv) Expr(t *rapid.T, k lang.Kind, depth int) lang.Expr {
 			A: e.noTernary().Expr(t, k, depth-1), B: e.noTernary().Expr(t, k, depth-1)}
 	}
 	num := func() lang.Kind {
-		if rapid.IntRange(0, 3).Draw(t, "numk") == 0 {
+		if Uniform(t, "numk", 4) == 0 {
 			return lang.KFloat
 		}
 		return lang.KInt
 	}
 	switch k {
 	case lang.KInt:
-		switch rapid.IntRange(0, 7).Draw(t, "intprod") {
+		switch Uniform(t, "intprod", 8) {
 		case 0, 1, 2, 3:
 			op := rapid.SampledFrom(arithOps).Draw(t, "op")
 			return lang.Binary{Op: op, L: e.Expr(t, lang.KInt, depth-1), R: e.Expr(t, lang.KInt, depth-1)}
@@ -156,7 +156,7 @@ func (e *ExprEnv) Expr(t *rapid.T, k lang.Kind, depth int) lang.Expr {
 		}
 		return lang.Paren{X: e.Expr(t, lang.KInt, depth-1)}
 	case lang.KFloat:
-		switch rapid.IntRange(0, 6).Draw(t, "floatprod") {
+		switch Uniform(t, "floatprod", 7) {
 		case 0, 1, 2:
 			op := rapid.SampledFrom(arithOps).Draw(t, "op")
 			lk, rk := lang.KFloat, num()
@@ -178,7 +178,7 @@ func (e *ExprEnv) Expr(t *rapid.T, k lang.Kind, depth int) lang.Expr {
 		}
 		return lang.Paren{X: e.Expr(t, lang.KFloat, depth-1)}
 	case lang.KString:
-		switch rapid.IntRange(0, 5).Draw(t, "strprod") {
+		switch Uniform(t, "strprod", 6) {
 		case 0, 1, 2:
 			return lang.Binary{Op: "+", L: e.Expr(t, lang.KString, depth-1), R: e.Expr(t, lang.KString, depth-1)}
 		case 3:
@@ -191,7 +191,7 @@ func (e *ExprEnv) Expr(t *rapid.T, k lang.Kind, depth int) lang.Expr {
 		}
 		return lang.Index{X: e.Expr(t, lang.KHash, depth-1), I: e.Leaf(t, lang.KString)}
 	case lang.KBool:
-		switch rapid.IntRange(0, 11).Draw(t, "boolprod") {
+		switch Uniform(t, "boolprod", 12) {
 		case 0, 1:
 			op := rapid.SampledFrom(cmpOps).Draw(t, "op")
 			return lang.Binary{Op: op, L: e.Expr(t, lang.KInt, depth-1), R: e.Expr(t, lang.KInt, depth-1)}
@@ -217,7 +217,7 @@ func (e *ExprEnv) Expr(t *rapid.T, k lang.Kind, depth int) lang.Expr {
 		op := rapid.SampledFrom([]string{"==", "!="}).Draw(t, "op")
 		return lang.Binary{Op: op, L: e.Expr(t, lang.KBool, depth-1), R: e.Expr(t, lang.KBool, depth-1)}
 	case lang.KArray:
-		switch rapid.IntRange(0, 3).Draw(t, "arrprod") {
+		switch Uniform(t, "arrprod", 4) {
 		case 0:
 			lo := rapid.Int64Range(-3, 5).Draw(t, "lo")
 			hi := lo + rapid.Int64Range(-1, 6).Draw(t, "span")
